@@ -8,6 +8,7 @@ from __future__ import annotations
 import numpy as np
 
 from mc.core import Report, viol, collect_samples
+from mc.histories import explore_getter_orders
 from mc.oracles.s3 import rotation_voronoi
 
 from molgri.space.rotobj import SphereGrid4DFactory
@@ -80,6 +81,25 @@ def run_case(case):
             "adjacent": int(X.sum() // 2)}
 
 
+SG_GETTERS = {"volumes": lambda g: g.get_spherical_voronoi().get_voronoi_volumes(),
+              "volumes_approx": lambda g: g.get_spherical_voronoi().get_voronoi_volumes(approx=True),
+              "adjacency": lambda g: g.get_voronoi_adjacency(), "borders": lambda g: g.get_cell_borders(),
+              "distances": lambda g: g.get_center_distances()}
+
+
+def order_case(case):
+    """all getter words of length <= 3 on ONE grid object: every observation equals the first call on a fresh object"""
+    alg, N = case["alg"], case["N"]
+    import itertools
+    allw = [list(w) for d in (2, 3) for w in itertools.product(SG_GETTERS, repeat=d)]
+    bad, nwords, calls = explore_getter_orders(lambda: SphereGrid4DFactory.create(alg, N), SG_GETTERS, words=allw[case.get("lo", 0):case.get("hi", len(allw))])
+    vs = []
+    for w, pos, g, exp, obs in bad[:3]:
+        vs.append(viol(f"C04|getter_order|{alg}_{N}|word={'>'.join(w[:pos + 1])}", f"{g} after {w[:pos]} on the same grid "
+                       "object differs from the first call on a fresh object", dict(case, word=w), exp, obs))
+    return {"violations": vs, "pairs": 0, "adjacent": 0, "degenerate": 0, "two_face": 0, "words": nwords, "calls": calls}
+
+
 def cases(tier):
     if tier == "quick":
         Ns = list(range(4, 41))
@@ -93,6 +113,10 @@ def run(ctx):
     cs = cases(ctx.tier)
     cs_sorted = sorted(cs, key=lambda c: -c["N"])          # big grids first for load balance
     res = ctx.pmap(run_case, cs_sorted, chunksize=1, recheck=2)
+    ocs = [{"order": True, "alg": a, "N": n, "lo": lo, "hi": lo + 15} for lo in range(0, 150, 15) for a, n in [('cube4D', 6), ('randomQ', 7)]]
+    ores = ctx.pmap(order_case, ocs, chunksize=1, recheck=1)
+    for r in ores:
+        rep.add_violations(r["violations"])
     for r in res:
         rep.add_violations(r["violations"])
         if r.get("harness"):
@@ -106,6 +130,7 @@ def run(ctx):
         "samples": collect_samples([f"{c['alg']}_{c['N']}" for c in cs], 6),
         "adjacent_pairs": sum(r.get("adjacent", 0) for r in res),
         "pairs_touching_through_two_faces": sum(r["two_face"] for r in res),
+        "getter_order_words": sum(r["words"] for r in ores), "getter_order_calls": sum(r["calls"] for r in ores),
         "exhaustive": True, "bound": {"N": "4..40" if ctx.tier == "quick" else "4..80, 100, 150, 272"},
     }
     rep.assumptions = ["border tolerance 5e-5 absolute (the code rounds cosines to 7 decimals)", "distance tolerance 1e-7",
@@ -114,4 +139,6 @@ def run(ctx):
 
 
 def replay(case):
+    if case.get("order"):
+        return order_case(case)["violations"]
     return run_case(case)["violations"]
